@@ -39,7 +39,8 @@ RULE = (
     "(RecordDescriptor(name, [])): N records differing only in the reserved slots, then a record of another type / another "
     "field-less type, a field-less record after a normal type, an empty GroupedRecord first; the sink is a path or an "
     "io.BytesIO handed to AvroWriter; the second-type / unmapped / grouped / field-less / out-of-range refusal workloads are "
-    "one AvroReader consumed in pieces (peek then loop, two peeks, islice batches, break then resume, handled exception then "
+    "descriptors in which a field name is declared twice with different mapped types (every ordered pair; extend() with an "
+    "existing name): the Avro type must follow the record's own, last declaration; one AvroReader consumed in pieces (peek then loop, two peeks, islice batches, break then resume, handled exception then "
     "resume) on 1-40 record and multi-block files must give every record exactly once in order; a copy pipeline feeds the writer from two record-stream sources of one type plus an equal descriptor re-created in "
     "between (equal, not identical descriptor objects are one record type); re-run in child interpreters under -O, -OO, PYTHONOPTIMIZE=1|2 with the same oracle; Avro written to the REAL stdout "
     "of a child (RecordWriter('avro://-'|'avro://'), rdump -w avro://-) x writer finished by close() alone / with-block / "
@@ -161,6 +162,15 @@ def _generate(ctx):
                         yield {"k": "fieldless", "shape": shape, "mode": mode, "sink": sink,
                                "s": subseed("c19", ctx.seed, "fieldless", shape, mode, sink, rep)}
                     idx += 1
+        if rep < ctx.scale(1, 6):
+            # a field name declared twice with different mapped types (every ordered pair): the record's slot has the LAST type
+            for t1 in am.MAPPED_NO_DIGEST:
+                for t2 in am.MAPPED_NO_DIGEST:
+                    if t1 != t2:
+                        if ctx.mine(idx):
+                            yield {"k": "redeclared", "t1": t1, "t2": t2, "mode": ("clean", "continue")[idx % 2],
+                                   "s": subseed("c19", ctx.seed, "redeclared", t1, t2, rep)}
+                        idx += 1
         for pattern in am.USAGE_PATTERNS:
             for size in ("small", "multi-block"):
                 if ctx.mine(idx):
@@ -232,6 +242,17 @@ def build_history(case, thorough):
     k, mode = case["k"], case["mode"]
     must = [case["t"]] if k == "cell" else []
     desc = am.make_descriptor(rng, must=must, digest_p=0.04 if k != "big" else 0.0, wide=thorough and k != "big")
+    if k == "redeclared":
+        from flow.record import RecordDescriptor
+
+        extra = [(rng.choice(am.MAPPED_NO_DIGEST), "other%d" % i) for i in range(rng.choice([0, 1, 3]))]
+        name = gen.rand_typename(rng)
+        if rng.random() < 0.5:
+            desc = RecordDescriptor(name, [(case["t1"], "x")] + extra).extend([(case["t2"], "x")])
+        elif rng.random() < 0.5:
+            desc = RecordDescriptor(name, extra + [(case["t1"], "x"), (case["t2"], "x")])
+        else:
+            desc = RecordDescriptor(name, [(case["t1"], "x")] + extra).extend([(case["t1"], "x")]).extend([("string", "tail"), (case["t2"], "x")])
     if k == "big":
         n = case["n"]
     else:
@@ -921,6 +942,8 @@ def execute(ctx, case):
         ctx.cell("second-type", case["variant"], case["pos"])
     elif case["k"] == "unmapped":
         ctx.cell("unmapped", case["ut"], case["pos"])
+    elif case["k"] == "redeclared":
+        ctx.cell("redeclared", case["t1"], case["t2"])
     elif case["k"] == "merge":
         ctx.cell("merge", mode, sink)
         ctx.event("merge_distinct_descriptor_objects", len({id(r._desc) for r in recs}))
